@@ -93,7 +93,10 @@ def check_case(case, ctx):
                 res = _simp.build_pipe(desc).transform(c)
                 leaves = _simp.flat(desc)
             elif form == 'list':
-                res = Transformer.apply_transformers(c, [_simp.build_pipe(d) for d in desc])
+                ts_ = _simp.flavour(rng, [_simp.build_pipe(d) for d in desc])
+                if not isinstance(ts_, (list, tuple)):
+                    ctx.count('passes_as_one_shot_iterable')
+                res = Transformer.apply_transformers(c, ts_)
                 leaves = sum((_simp.flat(d) for d in desc), [])
             elif form == 'composition':
                 res = Transformer.apply_transformers(c, _simp.build_pipe(desc))
